@@ -45,7 +45,7 @@ for d in sorted(os.listdir(os.path.join(V, 'seeded'))):
     else:
         own = m['property']
         ids = sorted(k for k, v in res.items() if v == 1)
-        other = sorted(k for k, v in res.items() if v not in (0, 1))
+        other = sorted(k for k, v in res.items() if v not in (0, 1, 3))  # 3 = too few cases at the survey scale: silent
         parts = [('**%s**' % k if k == own else k) for k in ids]
         caught = ' '.join(parts) if parts else '**none**'
         if other:
